@@ -220,10 +220,10 @@ def obligations(tier, seed):
     for init in (("a", "b", "c") if q else list(INITS)):
         m = len(INITS[init])
         plans = [(0, 1, 1)]
-        if m == 2 or not q:
+        if m == 2:
             plans.append((1, 1, 1))
-        if m == 2 and not q:
-            plans.append((1, 1, 2))
+            if not q:
+                plans.append((0, 2, 1))
         for burn, thin, samples in plans:
             for accept in ("real", "any"):
                 if accept == "any" and burn + thin * samples > 1:
@@ -258,7 +258,7 @@ META = {
                  "solver variable; acceptance probability real (concrete model numerics) or an arbitrary positive real; "
                  "truncated-Poisson weights arbitrary integers in [1,2] ([0,2] in the zero-dropping obligations); seed "
                  "discipline for all integer seeds >= 0",
-        "thorough": "5 initial hypergraphs (string labels, 4 hyperedges)",
+        "thorough": "5 initial hypergraphs (string labels, 4 hyperedges), thinning 2 on the 2-hyperedge input",
     },
     "stand_ins": ["sampler._rng (numpy Generator) -> draws as solver variables (choice without replacement distinct, "
                   "random() in [0,1))", "sample_truncated_poisson -> arbitrary small integers (the documented contract is "
